@@ -5,7 +5,9 @@ import json, os, subprocess, sys
 ROOT = os.path.dirname(os.path.dirname(os.path.abspath(__file__)))
 REPO = os.path.join(os.path.dirname(ROOT), "repo") if os.path.isdir(os.path.join(os.path.dirname(ROOT), "repo", "contracts")) else "/repo"
 allc = "--all" in sys.argv
-only = [a for a in sys.argv[1:] if not a.startswith("--")]
+only = [x for a in sys.argv[1:] if not a.startswith("--") for x in a.split(",")]
+if "--help" in sys.argv or "-h" in sys.argv:
+    print(__doc__ + "\nusage: run_seeded.py [--all] [S201,S223 | S201-C02-... ...]   (ids or id prefixes up to the first dash)"); sys.exit(0)
 checks = [c["property_id"] for c in json.load(open(os.path.join(ROOT, "MANIFEST.json")))["checks"]]
 def clean():
     subprocess.run(["git", "-C", REPO, "checkout", "--", "."], check=True)
@@ -14,7 +16,7 @@ out = []
 try:
     for sid in sorted(os.listdir(os.path.join(ROOT, "seeded"))):
         d = os.path.join(ROOT, "seeded", sid)
-        if not os.path.isdir(d) or (only and sid not in only):
+        if not os.path.isdir(d) or (only and sid not in only and sid.split("-")[0] not in only):
             continue
         meta = json.load(open(os.path.join(d, "meta.json")))
         r = subprocess.run(["git", "-C", REPO, "apply", os.path.join(d, "patch.diff")])
